@@ -29,11 +29,22 @@ def _ensure_overlay():
         os.execve(py, [py, os.path.abspath(__file__)] + sys.argv[1:], env)
 
 
+def _finish(code):
+    """Exit without waiting for executor management threads of killed worker pools."""
+    sys.stdout.flush()
+    sys.stderr.flush()
+    os._exit(code)
+
+
 def main():
+    import faulthandler, signal
+
+    faulthandler.register(signal.SIGUSR1, all_threads=True)
     ap = argparse.ArgumentParser()
     ap.add_argument("prop")
     ap.add_argument("--tier", default=os.environ.get("VERIF_TIER", "quick"), choices=["quick", "thorough"])
     ap.add_argument("--canaries", action="store_true", help="run the check's in-process mutants; each must be detected")
+    ap.add_argument("--canary", help="run one named canary mutant (quick tier) and print a JSON line")
     ap.add_argument("--replay", help="re-run a recorded witness on the plain code")
     ap.add_argument("--no-evidence", action="store_true")
     a = ap.parse_args()
@@ -50,26 +61,36 @@ def main():
         print(json.dumps(rr, indent=1, default=repr))
         sys.exit(1 if rr.get("reproduced") else 0)
 
-    if a.canaries:
+    if a.canary:
+        code, ev, info = runner.run_check(modname, "quick", seed, canary=a.canary, quiet=True)
+        print(json.dumps({"canary": a.canary, "exit": code, "keys": [v["key"] for v in info["violations"]], "problems": [p[:200] for p in info["problems"]][:2]}))
+        _finish(0)
+
+    def run_canaries():
+        """Each canary mutant in a fresh process (quick tier); returns [(name, detected, info)]."""
         mod = importlib.import_module(modname)
-        names = [n for n, _ in mod.canaries()]
-        det = 0
-        for n in names:
-            code, ev, info = runner.run_check(modname, a.tier, seed, canary=n, quiet=True)
-            ok = code == 1
-            det += ok
-            print("CANARY %s %s: %s" % (a.prop, n, "detected (%s)" % info["violations"][0]["key"] if ok else "MISSED exit=%d %s" % (code, info["problems"][:1])))
-        print("canaries detected %d/%d" % (det, len(names)))
-        sys.exit(0 if det == len(names) else 3)
+        out = []
+        for n, _ in mod.canaries():
+            try:
+                r = subprocess.run([sys.executable, os.path.abspath(__file__), a.prop, "--canary", n], capture_output=True, text=True, timeout=1500,
+                                   env=dict(os.environ, VERIF_OVERLAY="1"))
+                line = [l for l in r.stdout.splitlines() if l.startswith("{")]
+                res = json.loads(line[-1]) if line else {"exit": "no-output", "keys": [], "problems": [r.stderr[-300:]]}
+            except subprocess.TimeoutExpired:
+                res = {"exit": "timeout", "keys": [], "problems": []}
+            ok = res["exit"] == 1
+            print("CANARY %s %s: %s" % (a.prop, n, ("detected (%s)" % res["keys"][0]) if ok else "MISSED exit=%s %s" % (res["exit"], res["problems"][:1])))
+            out.append((n, ok))
+        return out
+
+    if a.canaries:
+        det = run_canaries()
+        print("canaries detected %d/%d" % (sum(d for _, d in det), len(det)))
+        _finish(0 if all(d for _, d in det) else 3)
 
     code, ev, info = runner.run_check(modname, a.tier, seed)
     if a.tier == "thorough" and hasattr(importlib.import_module(modname), "canaries") and os.environ.get("VERIF_SKIP_CANARIES") != "1":
-        mod = importlib.import_module(modname)
-        det = []
-        for n, _ in mod.canaries():
-            c2, _, info2 = runner.run_check(modname, "quick", seed, canary=n, quiet=True)
-            det.append((n, c2 == 1))
-            print("CANARY %s %s: %s" % (a.prop, n, "detected" if c2 == 1 else "MISSED (exit %d)" % c2))
+        det = run_canaries()
         ev["coverage"]["canaries"] = {n: d for n, d in det}
         ev["coverage"]["canaries_detected"] = sum(d for _, d in det)
         if code == 0 and not all(d for _, d in det):
@@ -77,7 +98,7 @@ def main():
             code = 3
     if not a.no_evidence:
         runner.write_evidence(ev)
-    sys.exit(code)
+    _finish(code)
 
 
 if __name__ == "__main__":
